@@ -97,8 +97,10 @@ type vmRun struct {
 	out hostapi.Outcome
 }
 
+var onThread bool // set per run (single-threaded worker)
+
 func exec(proto *lua.FunctionProto, o lua.Options, withCtx bool, kind int, at int64, maxSteps int64) *vmRun {
-	h := hostapi.NewHost(hostapi.Options{LuaOptions: o, Kind: kind, At: at, MaxSteps: maxSteps, WithContext: withCtx})
+	h := hostapi.NewHost(hostapi.Options{LuaOptions: o, Kind: kind, At: at, MaxSteps: maxSteps, WithContext: withCtx, OnThread: onThread})
 	// math is needed by one template
 	h.L.Push(h.L.NewFunction(lua.OpenMath))
 	h.L.Push(lua.LString(lua.MathLibName))
@@ -146,6 +148,12 @@ func (e *Engine) Run(t *core.Tape, cfg *core.Config, st *core.Stats) *core.Viola
 		k := 1 + t.Choose(7)
 		src = "local emit = emit\n" + fmt.Sprintf(templates[i].src, k)
 		name = templates[i].name
+	}
+	// the context may be attached to a thread created from a context-less main state
+	onThread = name != "simlua" && t.Choose(3) == 0
+	if onThread {
+		st.Probe("context_on_non_main_thread")
+		name += "@thread"
 	}
 	o := hostapi.SmallOptions()
 	switch t.Choose(4) {
